@@ -69,6 +69,8 @@ def _composite_normals(rep, rng, shapes, N):
         n = [2, 3, 4][t % 3]
         for shape in shapes(n):
             v = _spacelike_batch(rng, shape, n)
+            if t % 3 == 2:       # a normal is a homogeneous vector: tiny and huge representatives describe the same walls
+                v = v * 10.0 ** rng.uniform(-6, 3, size=shape + (1,))
             inp = {"n": n, "shape": list(shape), "normals": v.tolist()}
 
             def body():
@@ -80,9 +82,9 @@ def _composite_normals(rep, rng, shapes, N):
                 for idx in np.ndindex(*shape):
                     sv, ib = d[idx][0], d[idx][1:]
                     cr = np.outer(sv, v[idx]); 
-                    if not np.all(np.abs(cr - cr.T) <= 1e-8):
+                    if not np.all(np.abs(cr - cr.T) <= 1e-8 * max(1.0, np.max(np.abs(cr)))):
                         rep.fail("composite_normal_row", f"index {idx}", inp); return
-                    if not np.all(np.abs(np.einsum('ki,ij,kj->k', ib, J, ib)) <= 1e-8) or not np.all(np.abs(ib @ J @ v[idx]) <= 1e-8):
+                    if not np.all(np.abs(np.einsum('ki,ij,kj->k', ib, J, ib)) <= 1e-8 * max(1.0, np.max(np.abs(ib)) ** 2)) or not np.all(np.abs(ib @ J @ v[idx]) <= 1e-8 * max(1.0, np.max(np.abs(ib))) * np.max(np.abs(v[idx]))):
                         rep.fail("composite_ideal_basis", f"index {idx}", inp); return
                 R = Hp.reflection_across().proj_data
                 if R.shape != shape + (n + 1, n + 1) or not np.all(np.abs(R @ J @ np.swapaxes(R, -1, -2) - J) <= 1e-8):
@@ -91,7 +93,7 @@ def _composite_normals(rep, rng, shapes, N):
                 bsv = back.spacelike_vector.reshape(shape + (n + 1,))
                 for idx in np.ndindex(*shape):
                     cr = np.outer(bsv[idx], v[idx])
-                    if not np.all(np.abs(cr - cr.T) <= 1e-6):
+                    if not np.all(np.abs(cr - cr.T) <= 1e-6 * max(1e-300, np.max(np.abs(cr)))):
                         rep.fail("from_reflection_recovers_wall", f"index {idx}", inp); return
                 if n == 2:          # in dimension 2 the wall of each reflection of the composite is a geodesic
                     G = h.Geodesic.from_reflection(h.Isometry(R.copy()))
@@ -99,7 +101,7 @@ def _composite_normals(rep, rng, shapes, N):
                     if e is None:
                         rep.fail("geodesic_from_reflection_shape", f"{G.proj_data.shape} for reflections of shape {shape}", inp); return
                     for idx in np.ndindex(*shape):
-                        if not np.all(np.abs(e[idx] @ J @ v[idx]) <= 1e-6) or not np.all(np.abs(np.einsum('ki,ij,kj->k', e[idx], J, e[idx])) <= 1e-6):
+                        if not np.all(np.abs(e[idx] @ J @ v[idx]) <= 1e-6 * max(1.0, np.max(np.abs(e[idx]))) * np.max(np.abs(v[idx]))) or not np.all(np.abs(np.einsum('ki,ij,kj->k', e[idx], J, e[idx])) <= 1e-6):
                             rep.fail("geodesic_from_reflection", f"index {idx}: endpoints are not the ideal points of the wall of that reflection", inp); return
                         cr2 = np.outer(e[idx][0], e[idx][1])
                         if np.all(np.abs(cr2 - cr2.T) <= 1e-9 * np.max(np.abs(cr2))):
